@@ -8,7 +8,8 @@ field's own live contents (generator expression / filter, reversed, iter, iterto
 two-owner sequences in which a second instance is CONSTRUCTED with the live container of the first
 (`b = Cls(f=a.f)`) and both fields are written afterwards; and populations in which several DISTINCT objects
 compare equal (schema V, a Symbol dataclass with value equality) used in every operation on list and set fields,
-also through an alias. Observation: the contents of the field(s) (list order and
+also through an alias; and slice assignment `a.f[i:j] = value` with arbitrary bounds (empty, inverted, negative,
+open ended), a replacement of any length, given as list / tuple or as a one-shot iterable. Observation: the contents of the field(s) (list order and
 repetitions significant for list fields, sets sorted) and the set of relation triples in the SymbolGraph
 (owner-specific)."""
 from __future__ import annotations
@@ -29,6 +30,9 @@ THEOREMS = [
     "KrroodVerif.PD.C16_cex_iadd",
     "KrroodVerif.PD.C16_cex_list_order",
     "KrroodVerif.PD.C16_cex_ior_bypass",
+    "KrroodVerif.PD.C16_now",
+    "KrroodVerif.PD.C16_cex_slice_twins",
+    "KrroodVerif.PD.C16_cex_slice_one_shot",
     "KrroodVerif.PD.C16_two_general",
     "KrroodVerif.PD.C16_two_full",
     "KrroodVerif.PD.C16_two_partial",
@@ -60,6 +64,7 @@ ASSUMPTIONS = [
     "elements (Python set semantics), relations are per OBJECT (one graph node per instance) - every object handed "
     "to an add operation is asserted, as an individual append/add does; a set literal passed to =, |= cannot hold "
     "two equal elements, so such arguments are generated key-distinct",
+    "slice assignment without a step only (`a.f[i:j:k] = ...` is not generated)",
     "item assignment uses indices in range (an out-of-range index raises IndexError after the hook has run; "
     "not generated)",
 ]
@@ -110,6 +115,10 @@ def _asis_step(cur: List[int], op, is_set: bool, keyf=None) -> List[int]:
         c = list(cur)
         c[op[1]] = op[2]
         return c
+    if k == "setslice":
+        c = list(cur)
+        c[op[1]:op[2]] = list(op[4])
+        return c
     if k == "assign":
         out: List[int] = []
         for x in op[1]:
@@ -147,13 +156,16 @@ def _fmt(op) -> str:
         return f"({k} {op[1]} {op[2]})"
     if k == "assignSelf":
         return "(assignSelf)"
+    if k == "setslice":
+        b = lambda v: "-" if v is None else str(v)
+        return f"(setslice {b(op[1])} {b(op[2])} {op[3]}{''.join(' ' + str(x) for x in op[4])})"
     if k == "assignView":
         return f"(assignView {op[1]}{''.join(' ' + str(x) for x in (op[2] if len(op) > 2 else []))})"
     return f"({k} {' '.join(map(str, op[1]))})" if op[1] else f"({k})"
 
 
 def _sequence(rng, n_obj: int, is_set: bool, clean: bool, maxlen: int, no_setitem: bool = False, init=None,
-              minlen: int = 1, keys=None):
+              minlen: int = 1, keys=None, in_two_owner: bool = False):
     keyf = (lambda o: keys[o]) if keys else None
 
     def as_set_literal(xs):
@@ -177,11 +189,14 @@ def _sequence(rng, n_obj: int, is_set: bool, clean: bool, maxlen: int, no_setite
             if not clean:
                 kinds += ["assignSelf", "iadd", "iaddAlias", "iadd", "assignView", "assignView"]
         else:
-            kinds = ["append", "append", "extend", "insert", "insert", "setitem", "setitem", "assign"]
+            kinds = ["append", "append", "extend", "insert", "insert", "setitem", "setitem", "assign", "setslice",
+                     "setslice"]
             if not clean:
                 kinds += ["assignSelf", "iadd", "iaddAlias", "assign", "iadd", "assignView", "assignView"]
         if no_setitem:
             kinds = [x for x in kinds if x != "setitem"]
+        if in_two_owner:
+            kinds = [x for x in kinds if x != "setslice"]
         k = rng.choice(kinds)
         if k in ("append", "add"):
             op = (k, rng.randrange(n_obj))
@@ -195,6 +210,14 @@ def _sequence(rng, n_obj: int, is_set: bool, clean: bool, maxlen: int, no_setite
             if not cur:
                 continue
             op = (k, rng.randint(-len(cur), len(cur) - 1), rng.randrange(n_obj))
+        elif k == "setslice":
+            # any window: empty, inverted, negative, open ended; replaced by 0..3 elements (usually another length)
+            def bound():
+                return None if rng.random() < 0.2 else rng.randint(-len(cur) - 2, len(cur) + 2)
+            one_shot = (not clean) and rng.random() < 0.25
+            op = (k, bound(), bound(), "G" if one_shot else "L", xs)
+            if one_shot:
+                no_setitem = True  # the implementation stores nothing from a one-shot iterable: lengths diverge
         elif k == "assign":
             if is_set:
                 xs = as_set_literal(sorted(set(xs)))
@@ -256,10 +279,10 @@ def _two_owner(rng, d: dict, i: int) -> Case:
     is_set = d["kinds"][f] == "set"
     a, b = n_obj - 2, n_obj - 1
     init = [rng.randrange(n_obj - 1) for _ in range(rng.randint(0, 3))]
-    _, pre = _sequence(rng, n_obj - 1, is_set, False, 3, init=list(init), minlen=0)
+    _, pre = _sequence(rng, n_obj - 1, is_set, False, 3, init=list(init), minlen=0, in_two_owner=True)
     ops = [("A", o) for o in pre] + [("adopt",)]
     if i % 5 >= 2:  # writes after the adoption (inside the trigger of F-C16-5)
-        _, post = _sequence(rng, n_obj, is_set, False, 4, no_setitem=True, init=[])
+        _, post = _sequence(rng, n_obj, is_set, False, 4, no_setitem=True, init=[], in_two_owner=True)
         ops += [(rng.choice("AB"), o) for o in post]
     tags = ("two-owners", "set-field" if is_set else "list-field",
             "adopt-last" if ops[-1][0] == "adopt" else "writes-after-adopt")
